@@ -24,11 +24,11 @@ func (vc *VC) innermostLoopOf(b *ssa.BasicBlock) *LoopInfo {
 // loopIndexTerm: the index of the element being processed by the current iteration of a range loop
 // (= rangeindex phi + 1), or the value of the loop's own counter phi if it is not a range loop.
 func (vc *VC) loopIndexTerm(li *LoopInfo) (string, bool) {
-	hb := vc.fn.Blocks[li.header]
-	for _, ins := range hb.Instrs {
-		if ph, ok := ins.(*ssa.Phi); ok && ph.Comment == "rangeindex" {
-			return fmt.Sprintf("(+ %s 1)", vc.vals[ph].S), true
+	if ph, off, _ := vc.countingPhi(li); ph != nil {
+		if off == 0 {
+			return vc.vals[ph].S, true
 		}
+		return fmt.Sprintf("(+ %s %d)", vc.vals[ph].S, off), true
 	}
 	return "", false
 }
